@@ -24,6 +24,18 @@ func cmdProbe(name string) {
 		b := newCtx(w)
 		fmt.Println("incoming swap-out request on 100x1x0:", b.Step("new outReceiver btc scid=100x1x0"), b.state())
 		fmt.Println("active:", len(w.svc.VerifActiveSwaps()))
+	case "c16-default":
+		// crash between the first persist (request data applied, state still Default) and the first transition
+		a := newCtx(w)
+		a.Step("crash 1")
+		fmt.Println("local swap-out, process dies after the first store write:", a.Step("new outSender btc"))
+		fmt.Println("record:", w.swapRecordJSON(a.id) != "", "state:", a.state())
+		for i := 0; i < 3; i++ {
+			a.Step("restart")
+			fmt.Println("after restart", i+1, "active:", w.svc.VerifActiveSwaps())
+		}
+		b := newCtx(w)
+		fmt.Println("new swap-out on the same channel:", b.Step("new outSender btc"))
 	case "c09-id":
 		a := newCtx(w)
 		fmt.Println("incoming swap-out request:", a.Step("new outReceiver btc"), a.state())
